@@ -478,7 +478,10 @@ func invokeTransactionHash(i *InvokeTransaction, n *networks.Network) (felt.Felt
 			i.Nonce,
 		), nil
 	case i.Version.Is(3):
-		tipAndResourceBoundsHash := tipAndResourcesHash(i.Tip, i.ResourceBounds)
+		tipAndResourceBoundsHash, err := tipAndResourcesHash(i.Tip, i.ResourceBounds)
+		if err != nil {
+			return felt.Felt{}, err
+		}
 		paymasterDataHash := crypto.PoseidonArray(i.PaymasterData)
 		accountDeploymentDataHash := crypto.PoseidonArray(i.AccountDeploymentData)
 		calldataHash := crypto.PoseidonArray(i.CallData)
@@ -511,7 +514,17 @@ func invokeTransactionHash(i *InvokeTransaction, n *networks.Network) (felt.Felt
 	}
 }
 
-func tipAndResourcesHash(tip uint64, resourceBounds map[Resource]ResourceBounds) felt.Felt {
+func tipAndResourcesHash(
+	tip uint64,
+	resourceBounds map[Resource]ResourceBounds,
+) (felt.Felt, error) {
+	// every v3 transaction carries an l1_gas and an l2_gas bound; without them there is no preimage
+	for _, resource := range []Resource{ResourceL1Gas, ResourceL2Gas} {
+		if bounds, ok := resourceBounds[resource]; !ok || bounds.MaxPricePerUnit == nil {
+			return felt.Felt{}, fmt.Errorf("missing %s resource bounds", resource)
+		}
+	}
+
 	l1Bounds := felt.FromBytes[felt.Felt](resourceBounds[ResourceL1Gas].Bytes(ResourceL1Gas))
 	l2Bounds := felt.FromBytes[felt.Felt](resourceBounds[ResourceL2Gas].Bytes(ResourceL2Gas))
 	tipFelt := felt.FromUint64[felt.Felt](tip)
@@ -525,7 +538,7 @@ func tipAndResourcesHash(tip uint64, resourceBounds map[Resource]ResourceBounds)
 		digest.Update(&l1DataBounds)
 	}
 
-	return digest.Finish()
+	return digest.Finish(), nil
 }
 
 func dataAvailabilityMode(feeDAMode, nonceDAMode DataAvailabilityMode) uint64 {
@@ -582,7 +595,10 @@ func declareTransactionHash(d *DeclareTransaction, n *networks.Network) (felt.Fe
 			d.CompiledClassHash,
 		), nil
 	case d.Version.Is(3):
-		resourceHash := tipAndResourcesHash(d.Tip, d.ResourceBounds)
+		resourceHash, err := tipAndResourcesHash(d.Tip, d.ResourceBounds)
+		if err != nil {
+			return felt.Felt{}, err
+		}
 		paymasterDataHash := crypto.PoseidonArray(d.PaymasterData)
 		accountDeploymentDataHash := crypto.PoseidonArray(d.AccountDeploymentData)
 		daMode := felt.FromUint64[felt.Felt](dataAvailabilityMode(d.FeeDAMode, d.NonceDAMode))
@@ -652,7 +668,10 @@ func deployAccountTransactionHash(
 			d.Nonce,
 		), nil
 	case d.Version.Is(3):
-		resourcesHash := tipAndResourcesHash(d.Tip, d.ResourceBounds)
+		resourcesHash, err := tipAndResourcesHash(d.Tip, d.ResourceBounds)
+		if err != nil {
+			return felt.Felt{}, err
+		}
 		paymasterDataHash := crypto.PoseidonArray(d.PaymasterData)
 		ctorCallDataHash := crypto.PoseidonArray(d.ConstructorCallData)
 		daMode := felt.FromUint64[felt.Felt](dataAvailabilityMode(d.FeeDAMode, d.NonceDAMode))
